@@ -597,7 +597,7 @@ Proof.
   assert (Hc : forall a b : color, {a = b} + {a <> b}) by decide equality.
   assert (Hp : forall a b : piece, {a = b} + {a <> b}) by decide equality.
   decide equality; try apply N.eq_dec; try apply Bool.bool_dec.
-Qed.
+Defined.
 
 (* in-range features: the ones whose key is an entry of the tables of a hasher built by hasher_of_stream
    (out-of-range lookups return the default 0) *)
@@ -963,6 +963,11 @@ Proof.
     unfold norm_state. cbn [st_ep]. exact E.
 Qed.
 
+(* WfState (in fact only: the pawn slot of the side to move is below 2^64) is needed.  Counterexample without
+   it: Black to move, bP = 2^65 (a bit outside the board), no other piece; shr64 does not truncate, so
+   shift moves the bit to 57 and then to 58, and with st_ep = Some 58 pawn_moves offers an en-passant
+   capture although ep_capturable = None; with st_ep = None it does not.  Same rule key, different
+   pawn_moves ([33612801; 50456577] against [33612801], by vm_compute). *)
 Theorem same_key_same_moves : forall s1 s2, WfState s1 -> WfState s2 ->
   rulekey s1 = rulekey s2 -> map fst (MoveGen.gen_legal s1) = map fst (MoveGen.gen_legal s2).
 Proof.
